@@ -223,8 +223,17 @@ def rule_partial_polarity(ctx):
             if blk[2]:
                 continue
             for st in blk[0]:
-                if st[0] == "=" and len(st[1]) == 1 and st[2][0] == "bin" and st[2][1] == "Ne" and op_const_int(st[2][3]) == 0:
-                    l = op_local(st[2][2])
+                if st[0] != "=" or len(st[1]) != 1 or st[2][0] != "bin":
+                    continue
+                op_, a_, b_ = st[2][1], st[2][2], st[2][3]
+                # `x != 0`, `x > 0`, `0 < x`, `x >= 1`, `1 <= x` on the unsigned counter are the same question
+                if (op_ in ("Ne", "Gt") and op_const_int(b_) == 0) or (op_ == "Ge" and op_const_int(b_) == 1):
+                    l = op_local(a_)
+                elif (op_ in ("Ne", "Lt") and op_const_int(a_) == 0) or (op_ == "Le" and op_const_int(a_) == 1):
+                    l = op_local(b_)
+                else:
+                    continue
+                if True:
                     if defs is None:
                         defs = Defs(f)
                     d = defs.single(l) if l is not None else None
